@@ -196,6 +196,94 @@ def _work(args):
     return acc
 
 
+# ---------------------------------------------------------------------------------------
+# input forms: the front end accepts a source string, a function object (inspect.getsource + dedent) or a list of AST nodes.
+# All must denote the same graph.  Functions are written to a scratch module in three placements - top level, method of a
+# class (indented once), nested in an ``if`` inside a class (indented twice) - imported, and converted in every form.
+
+def _forms_dump(scfg):
+    from ..canon import cdump
+    return cdump(scfg)
+
+
+def _convert(fn, arg):
+    try:
+        return ("ok", _forms_dump(fn(arg)))
+    except NotImplementedError:
+        return ("refused",)
+    except Exception as e:  # noqa: BLE001
+        return ("raised", type(e).__name__, exc_fingerprint(e)[1])
+
+
+def input_forms_leg(tier: str, acc: Acc):
+    import importlib.util
+    import shutil
+    import sys
+    import tempfile
+    import textwrap
+    from numba_scfg.core.datastructures.ast_transforms import AST2SCFG, AST2SCFGTransformer, SCFG2AST
+    progs = list(skeleton_sources(1, "marked")) + list(skeleton_sources(1, "bare")) + list(all_target_programs())
+    if tier != "quick":
+        progs += list(skeleton_sources(2, "marked"))[62::7]
+    d = tempfile.mkdtemp(prefix="mc_forms_")
+    try:
+        lines, table = [], []
+        for i, (label, src) in enumerate(progs):
+            lines.append(src.replace("def f(", f"def top_{i}(", 1))
+        lines.append("class K:\n")
+        for i, (label, src) in enumerate(progs):
+            lines.append(textwrap.indent(src.replace("def f(", f"def meth_{i}(", 1), "    "))
+        lines.append("class L:\n    if True:\n")
+        for i, (label, src) in enumerate(progs):
+            lines.append(textwrap.indent(src.replace("def f(", f"def deep_{i}(", 1), "        "))
+        path = f"{d}/mc_forms_mod.py"
+        with open(path, "w") as f:
+            f.write("\n".join(lines))
+        spec = importlib.util.spec_from_file_location("mc_forms_mod", path)
+        mod = importlib.util.module_from_spec(spec)
+        sys.modules["mc_forms_mod"] = mod
+        spec.loader.exec_module(mod)
+        for i, (label, src) in enumerate(progs):
+            ref = _convert(AST2SCFG, src)
+            forms = {
+                "ast-list": _convert(AST2SCFG, ast.parse(src).body),
+                "function/top-level": _convert(AST2SCFG, getattr(mod, f"top_{i}")),
+                "function/method": _convert(AST2SCFG, getattr(mod.K, f"meth_{i}")),
+                "function/indented-twice": _convert(AST2SCFG, getattr(mod.L, f"deep_{i}")),
+                "transformer(function)": _convert(lambda a: AST2SCFGTransformer(a).transform_to_SCFG(), getattr(mod.K, f"meth_{i}")),
+            }
+            for form, got in forms.items():
+                acc.states += 1
+                acc.transitions += 1
+                acc.counters["input_form_conversions"] += 1
+                if got != ref:
+                    what = got[0] if got[0] != "ok" else "a different graph"
+                    acc.viol(PROP, f"{PROP}/input-form-differs/{form}", f"{label}: AST2SCFG of the {form} form gives {what}"
+                             f"{' ' + repr(got[1:]) if got[0] == 'raised' else ''}; the source-string form gives {ref[0]}",
+                             (src, form), case={"kind": "forms", "label": label, "source": src})
+            # regenerated text must not depend on the form in which the original is handed to SCFG2AST either
+            if ref[0] == "ok":
+                try:
+                    s1 = AST2SCFG(src)
+                    s1.restructure()
+                    t1 = ast.unparse(SCFG2AST(src, s1))
+                    s2 = AST2SCFG(src)
+                    s2.restructure()
+                    t2 = ast.unparse(SCFG2AST(getattr(mod.K, f"meth_{i}"), s2)).replace(f"meth_{i}", "f")
+                    acc.states += 1
+                    if t1 != t2:
+                        acc.viol(PROP, f"{PROP}/input-form-differs/SCFG2AST(function)", f"{label}: SCFG2AST given the function object "
+                                 "regenerates different text than given the source string", (src, "scfg2ast"),
+                                 case={"kind": "forms", "label": label, "source": src})
+                except NotImplementedError:
+                    pass
+                except Exception:  # noqa: BLE001  (C07's business)
+                    acc.counters["forms_pipeline_error(C07)"] += 1
+    finally:
+        sys.modules.pop("mc_forms_mod", None)
+        shutil.rmtree(d, ignore_errors=True)
+
+
 def run(tier: str, seed: int):
     horizon = 6 if tier == "quick" else 8
     progs = rotate(programs(tier), seed)
@@ -203,10 +291,12 @@ def run(tier: str, seed: int):
     acc = Acc()
     for r in shard_map(_work, [(progs[i:i + size], horizon) for i in range(0, len(progs), size)]):
         acc.merge(r)
+    input_forms_leg(tier, acc)
     cov = {"rule": "every program of S(c) (marked, bare), X(d) x carriers, targeted and dead-code shapes: AST2SCFGTransformer CFG (pruned and "
                    "unpruned) is executed by the checker's block interpreter against ALL oracle answer sequences up to the horizon and compared "
                    "with the function itself (call log incl. operator calls on oracle values, result, exception type); plus a static census by "
-                   "AST node identity against an independent reachability analysis",
+                   "AST node identity against an independent reachability analysis; plus the input-forms leg: source string, AST list and "
+                   "function object (top level, method, doubly indented) must convert to the identical graph",
            "bounds": {"horizon_answers": horizon, "programs": len(progs)}, "programs": len(progs)}
     return {"acc": acc, "coverage": cov, "assumptions": ["truthiness (__bool__) is not an external call",
                                                           "tests are opaque to the reference reachability analysis"]}
@@ -214,5 +304,17 @@ def run(tier: str, seed: int):
 
 def replay(case) -> Acc:
     acc = Acc()
+    if case.get("kind") == "forms":
+        import mc.progs as _p
+        saved = (_p.skeleton_sources, _p.all_target_programs)
+        g = globals()
+        old = (g["skeleton_sources"], g["all_target_programs"])
+        g["skeleton_sources"] = lambda *a, **k: iter([(case.get("label", "replay"), case["source"])] if a[:2] == (1, "marked") else [])
+        g["all_target_programs"] = lambda: iter([])
+        try:
+            input_forms_leg("quick", acc)
+        finally:
+            g["skeleton_sources"], g["all_target_programs"] = old
+        return acc
     check_program(case.get("label", "replay"), case["source"], acc, case.get("horizon", 6), case.get("raising", False))
     return acc
